@@ -128,23 +128,26 @@ theorem rsa_key_forms (n : Nat) (eb mb : Bytes) (hn : eb.length = n) (hr : float
       parseKeyRsa ([0] ++ (Spec.toBytesBE 2 n ++ (eb ++ mb))) = .ok (.rsa (Spec.fromBytesBE eb) (Spec.fromBytesBE mb), 3 + n + mb.length)) :=
   ⟨fun h1 h2 => parseKeyRsa_short h1 h2 eb mb hn hr, fun h => parseKeyRsa_long h eb mb hn hr⟩
 
-/-- RFC 6605 §4: an elliptic-curve key composes to `x | y` in the curve's coordinate width and parses
-back — provided at least one coordinate really is that wide.  (See `ec_key_full_fails`.) -/
-theorem ec_key_conforms_partial (g x y : Nat) (h : EcOk (groupBytes g) x y) (s : Bytes) :
-    composeKeyEc x y = .ok (Spec.Dns.encodeEcdsa (groupBytes g) x y) ∧
+/-- RFC 6605 §4: every pair of coordinates that fit the curve's width composes to `x | y`, each in
+exactly that width — leading zero octets included. -/
+theorem ec_key_full (g x y : Nat) (hx : x < 256 ^ groupBytes g) (hy : y < 256 ^ groupBytes g) :
+    composeKeyEc g x y = .ok (Spec.Dns.encodeEcdsa (groupBytes g) x y) := composeKeyEc_eq_spec hx hy
+
+/-- … and for coordinates the library can build a key object from (`EcOk`: see
+`ec_key_constructible` for what that excludes) the RDATA form parses back, whatever follows, and the
+specification's decoder reads the same coordinates. -/
+theorem ec_key_conforms (g x y : Nat) (h : EcOk (groupBytes g) x y) (s : Bytes) :
+    composeKeyEc g x y = .ok (Spec.Dns.encodeEcdsa (groupBytes g) x y) ∧
     parseKeyEc g (Spec.Dns.encodeEcdsa (groupBytes g) x y ++ s) = .ok (.ec g x y, 2 * groupBytes g) ∧
     Spec.Dns.decodeEcdsa (groupBytes g) (Spec.Dns.encodeEcdsa (groupBytes g) x y) = some (x, y) :=
-  ⟨composeKeyEc_eq_spec h, parseKeyEc_spec h s, Spec.Dns.decodeEcdsa_encode h.2.2.2.1 h.2.2.2.2.1⟩
+  ⟨composeKeyEc_eq_spec h.1 h.2.1, parseKeyEc_spec h s, Spec.Dns.decodeEcdsa_encode h.1 h.2.1⟩
 
-/-- Every pair of non-zero coordinates that fit the curve's width composes to the fixed-width form.
-FALSE of the code: the width is re-derived from the coordinates. -/
-def ec_key_full : Prop :=
-  ∀ n x y : Nat, 1 ≤ x → 1 ≤ y → x < 256 ^ n → y < 256 ^ n →
-    composeKeyEc x y = .ok (Spec.Dns.encodeEcdsa n x y)
-
-/-- P-256 coordinates 5 and 7 (63 leading zero octets between them) are composed as two octets. -/
-theorem ec_key_full_fails : ¬ ec_key_full := fun h =>
-  absurd (h 32 5 7 (by decide) (by decide) (by decide) (by decide)) (by decide)
+/-- Non-zero coordinates that are not powers of 256 (away from the float zone of the key-size
+computation) are accepted, with any number of leading zero octets.  A zero coordinate or a wider
+coordinate equal to a power of 256 makes asn1crypto raise (known findings `crash:DnsRecordDnskey:…`). -/
+theorem ec_key_constructible (n x y : Nat) (hx : x < 256 ^ n) (hy : y < 256 ^ n) (hx1 : 1 ≤ x) (hy1 : 1 ≤ y)
+    (hrx : floatRisk x = false) (hry : floatRisk y = false) (hpx : ∀ k, x ≠ 256 ^ k) (hpy : ∀ k, y ≠ 256 ^ k) :
+    EcOk n x y := ⟨hx, hy, ecWidth_of_not_pow hx1 hy1 hrx hry hpx hpy⟩
 
 /-- "No trailing key bytes dropped": the key parser reads all of the public key field, for every
 algorithm.  FALSE of the code for the fixed-size key types. -/
@@ -256,40 +259,25 @@ theorem rrsig_compose_conforms (r : Rrsig) (h : RrsigComposable r) :
     composeRrsig r = .ok (Spec.Dns.encodeRrsig r.toSpec) := composeRrsig_eq_spec h
 
 /-- Every RRSIG value whose fields fit their widths (instants: any 32-bit value) is read back from
-its RDATA.  FALSE of the code. -/
+its RDATA.  FALSE of the code: RDATA of 19 to 23 octets is rejected (`HEADER_SIZE = 24`). -/
 def rrsig_roundtrip_full : Prop :=
   ∀ r : Rrsig, RrsigComposable r →
     parseRrsig (Spec.Dns.encodeRrsig r.toSpec) = .ok (r, (Spec.Dns.encodeRrsig r.toSpec).length)
 
-/-- signature expiration 2^32 - 1 (2106-02-07 06:28:15 UTC): the field reads as "no value" and the
-constructor's type check raises `TypeError` -/
-def rrsigTsWitness : Rrsig := ⟨.known 0, 7, 2, 3600, 2 ^ 32 - 1, 1600000000, 7, [[0x61]], [1, 2, 3, 4, 5, 6]⟩
-
-theorem rrsig_roundtrip_full_fails : ¬ rrsig_roundtrip_full := fun h => by
-  have h1 := h rrsigTsWitness (by
-    refine ⟨by show (0 : Nat) < _; decide, by decide, by decide, by decide, by decide, by decide, by decide, ?_⟩
-    intro l hl
-    simp only [rrsigTsWitness, List.mem_singleton] at hl
-    subst hl
-    exact ⟨by decide, by decide, by decide, by decide⟩)
-  have h2 : parseRrsig (Spec.Dns.encodeRrsig rrsigTsWitness.toSpec) = .error (.crash "TypeError") := by decide
-  rw [h2] at h1
-  exact absurd h1 (by decide)
-
-/-- Only the four documented parse errors escape `DnsRecordRrsig` (C02).  FALSE of the code. -/
-def rrsig_noCrash_full : Prop := Codec.NoCrash rrsigCodec
-
-theorem rrsig_noCrash_full_fails : ¬ rrsig_noCrash_full := fun h =>
-  h (Spec.Dns.encodeRrsig rrsigTsWitness.toSpec) "TypeError" (by decide)
-
 /-- a valid RRSIG (root signer, four signature octets): 23 octets, below the class's `HEADER_SIZE` -/
 def rrsigShortWitness : Rrsig := ⟨.known 0, 7, 0, 3600, 1600000000, 1500000000, 7, [], [1, 2, 3, 4]⟩
 
-theorem rrsig_roundtrip_short_fails :
-    parseRrsig (Spec.Dns.encodeRrsig rrsigShortWitness.toSpec) = .error (.notEnough 1) := by decide
+theorem rrsig_roundtrip_full_fails : ¬ rrsig_roundtrip_full := fun h => by
+  have h1 := h rrsigShortWitness
+    ⟨by show (0 : Nat) < _; decide, by decide, by decide, by decide, by decide, by decide, by decide,
+      fun l hl => absurd hl (by simp [rrsigShortWitness])⟩
+  have h2 : parseRrsig (Spec.Dns.encodeRrsig rrsigShortWitness.toSpec) = .error (.notEnough 1) := by decide
+  rw [h2] at h1
+  exact absurd h1 (by decide)
 
-/-- With both instants below 2^32 - 1 and at least 24 octets of RDATA: composed to the RFC layout,
-parsed back with every octet consumed, and read identically by the specification's decoder. -/
+/-- With at least 24 octets of RDATA — and instants over the FULL 32-bit range, `ff ff ff ff`
+included: composed to the RFC layout, parsed back with every octet consumed, and read identically
+by the specification's decoder. -/
 theorem rrsig_conforms_partial (r : Rrsig) (h : RrsigOk r) :
     composeRrsig r = .ok (Spec.Dns.encodeRrsig r.toSpec) ∧
     parseRrsig (Spec.Dns.encodeRrsig r.toSpec) = .ok (r, (Spec.Dns.encodeRrsig r.toSpec).length) ∧
@@ -323,6 +311,12 @@ theorem rrsig_conforms_partial (r : Rrsig) (h : RrsigOk r) :
     exact alg_tableOk.fits _ (List.mem_of_getElem? hget)
   exact Spec.Dns.decodeRrsig_encode htc halg h3 h4 h5 h6 h7 (nameWf_of_labelOk h8 hl)
 
+/-- Only the four documented parse errors escape `DnsRecordRrsig` (C02): whatever the input, the only
+"crash" the model can report is its own boundary marker for labels outside the ASCII fast path of
+the `idna` codec. -/
+theorem rrsig_noCrash_full (bs : Bytes) (k : String) (h : parseRrsig bs = .error (.crash k)) :
+    k = "UNMODELLED" := rrsig_crashOnly bs k h
+
 /-! ### TXT (RFC 1035 §3.3.14) -/
 
 /-- One or more character-strings of at most 255 ASCII octets are accepted; the value is their
@@ -333,27 +327,23 @@ theorem txt_parse_conforms (strs : List Bytes) (hne : strs ≠ [])
     Spec.Dns.decodeTxt (Spec.Dns.encodeTxt strs) = some strs :=
   ⟨parseTxt_encode hne h, Spec.Dns.decodeTxt_encode ⟨hne, fun v hv => (h v hv).2⟩⟩
 
-/-- Every ASCII value composes to conformant TXT RDATA that holds it.  FALSE of the code: only a
-single character-string is ever composed. -/
-def txt_compose_full : Prop :=
-  ∀ v : Bytes, isAscii v = true →
-    ∃ strs, Spec.Dns.TxtWf strs ∧ strs.flatten = v ∧ composeTxt v = .ok (Spec.Dns.encodeTxt strs)
-
-/-- every value above 255 octets is refused -/
-theorem txt_compose_rejects_long (v : Bytes) (ha : isAscii v = true) (hl : 256 ≤ v.length) :
-    composeTxt v = .error .invalidValue := composeTxt_long ha hl
-
-/-- 256 times the letter `a` -/
-theorem txt_compose_full_fails : ¬ txt_compose_full := fun h => by
-  have ha : isAscii (List.replicate 256 0x61) = true := isAscii_replicate 256 0x61 (by decide)
-  obtain ⟨strs, _, _, hc⟩ := h (List.replicate 256 0x61) ha
-  rw [composeTxt_long ha (by rw [List.length_replicate]; exact Nat.le_refl _)] at hc
-  exact absurd hc (by simp)
+/-- Every ASCII value — of any length — composes to conformant TXT RDATA (one or more
+character-strings of at most 255 octets, RFC 1035 §3.3.14) that holds exactly the value, and that
+RDATA parses back to the value with every octet consumed. -/
+theorem txt_compose_full (v : Bytes) (ha : isAscii v = true) :
+    ∃ strs, Spec.Dns.TxtWf strs ∧ strs.flatten = v ∧ composeTxt v = .ok (Spec.Dns.encodeTxt strs) ∧
+      parseTxt (Spec.Dns.encodeTxt strs) = .ok (v, (Spec.Dns.encodeTxt strs).length) ∧
+      Spec.Dns.decodeTxt (Spec.Dns.encodeTxt strs) = some strs := by
+  obtain ⟨h1, h2, h3⟩ := txtChunks_spec v ha
+  have hwf : Spec.Dns.TxtWf (txtChunks v) := ⟨h2, fun c hc => (h3 c hc).2⟩
+  refine ⟨txtChunks v, hwf, h1, composeTxt_eq_spec ha, ?_, Spec.Dns.decodeTxt_encode hwf⟩
+  have := parseTxt_encode h2 h3
+  rwa [h1] at this
 
 /-- Values of at most 255 octets compose to one character-string. -/
-theorem txt_compose_partial (v : Bytes) (ha : isAscii v = true) (hl : v.length ≤ 255) :
-    composeTxt v = .ok (Spec.Dns.encodeTxt [v]) ∧ Spec.Dns.TxtWf [v] ∧ [v].flatten = v :=
-  ⟨composeTxt_eq_spec ha hl, ⟨by simp, by simpa using hl⟩, by simp⟩
+theorem txt_compose_short (v : Bytes) (ha : isAscii v = true) (hl : v.length ≤ 255) :
+    composeTxt v = .ok (Spec.Dns.encodeTxt [v]) := by
+  rw [composeTxt_eq_spec ha, txtChunks_short hl]
 
 /-! ### non-vacuity: concrete values satisfying the hypotheses -/
 
@@ -378,8 +368,10 @@ example : keyTag ⟨[256], 1, .rsa 3 0x01020304, 3⟩ = .ok 0x0203 := by decide
 example : DnskeyOk ⟨[256], 12, .eddsa 0 ((List.range 32).map UInt8.ofNat), 3⟩ :=
   ⟨⟨[8], by decide, rfl⟩, rfl, by decide, ⟨rfl, by decide⟩⟩
 -- a P-256 key with full-width coordinates
-example : EcOk (groupBytes 0) (2 ^ 255 + 2 ^ 250) (2 ^ 200 + 2 ^ 190) :=
-  ⟨by decide, by decide, by decide, by decide, by decide, .inl (by decide), by decide, by decide⟩
+example : EcOk (groupBytes 0) (2 ^ 255 + 2 ^ 250) (2 ^ 200 + 2 ^ 190) := ⟨by decide, by decide, 32, by decide⟩
+-- both coordinates with leading zero octets
+example : EcOk (groupBytes 0) (2 ^ 240 + 2 ^ 230) (2 ^ 100 + 12345) := ⟨by decide, by decide, 31, by decide⟩
+example : composeKeyEc 0 5 7 = .ok (Spec.Dns.encodeEcdsa 32 5 7) := by decide
 example : LabelOk [0x77, 0x77, 0x77] := ⟨by decide, by decide, by decide, by decide⟩
 example : MxOk ⟨10, [[0x6d, 0x78], [0x65, 0x78, 0x61, 0x6d, 0x70, 0x6c, 0x65], [0x63, 0x6f, 0x6d]]⟩ :=
   ⟨by decide, by
@@ -388,15 +380,21 @@ example : MxOk ⟨10, [[0x6d, 0x78], [0x65, 0x78, 0x61, 0x6d, 0x70, 0x6c, 0x65],
     rcases hl with rfl | rfl | rfl <;> exact ⟨by decide, by decide, by decide, by decide⟩⟩
 example : composeMx ⟨10, [[0x6d, 0x78], [0x63, 0x6f, 0x6d]]⟩ = .ok [0, 10, 2, 0x6d, 0x78, 3, 0x63, 0x6f, 0x6d, 0] := by decide
 example : DsOk ⟨60485, 4, 1, List.replicate 32 0xab⟩ := ⟨by decide, by decide, by decide⟩
-example : RrsigOk ⟨.unknown 0xff00, 7, 2, 3600, 2 ^ 32 - 2, 0, 7, [[0x61]], List.replicate 64 1⟩ :=
-  ⟨⟨by decide, by decide⟩, by decide, by decide, by decide, by decide, by decide, by decide,
+-- signature expiration 2^32 - 1 (2106-02-07 06:28:15 UTC), a private RR type
+example : RrsigOk ⟨.unknown 0xff00, 7, 2, 3600, 2 ^ 32 - 1, 0, 7, [[0x61]], List.replicate 64 1⟩ :=
+  ⟨⟨⟨by decide, by decide⟩, by decide, by decide, by decide, by decide, by decide, by decide,
     by
       intro l hl
       simp only [List.mem_singleton] at hl
       subst hl
-      exact ⟨by decide, by decide, by decide, by decide⟩,
+      exact ⟨by decide, by decide, by decide, by decide⟩⟩,
     by decide⟩
+example : parseRrsig ([0, 1, 8, 2, 0, 0, 14, 16, 255, 255, 255, 255, 0, 0, 0, 0, 0, 7, 1, 0x61, 0] ++ [1, 2, 3, 4])
+    = .ok (⟨.known 0, 7, 2, 3600, 2 ^ 32 - 1, 0, 7, [[0x61]], [1, 2, 3, 4]⟩, 25) := by decide
+-- the slicing of `range(0, len, n)` (n = 255 in `DnsRecordTxt.compose`), shown with n = 3
+example : chunks 3 7 [1, 2, 3, 4, 5, 6, 7] = [[1, 2, 3], [4, 5, 6], [7]] := by decide
 example : parseTxt [2, 0x61, 0x62, 1, 0x63] = .ok ([0x61, 0x62, 0x63], 5) := by decide
 example : Spec.Dns.TxtWf [[0x61, 0x62], [0x63]] := ⟨by simp, by decide⟩
+example : composeTxt [0x61, 0x62] = .ok [2, 0x61, 0x62] ∧ composeTxt [] = .ok [0] := by decide
 
 end Cp.C08
